@@ -80,21 +80,27 @@ def check_arclength(r, ctx):
         if geom.dist(c[i - 1], c[i]) < 1e-6:
             ctx.discard("coincident-vertices")
     lan = make_lanelet(ll)
+    if validate_arclength(lan, ll, r["q"], ctx):
+        ctx.nontrivial()
+
+
+def validate_arclength(lan, ll, queries, ctx, tag=""):
+    c = ll["center"]
     ref = cumdist(c)
     total = ref[-1]
     scale = 1 + total + max(abs(x) for p in c for x in p)
     tol = 1e-9 * scale
     d = np.asarray(lan.distance, dtype=float)
     if len(d) != len(c):
-        raise Violation("distance-length", "%d values for %d vertices" % (len(d), len(c)))
+        raise Violation(tag + "distance-length", "%d values for %d vertices" % (len(d), len(c)))
     if d[0] != 0:
-        raise Violation("distance-start", repr(d[0]))
+        raise Violation(tag + "distance-start", repr(d[0]))
     if any(d[i + 1] < d[i] for i in range(len(d) - 1)):
-        raise Violation("distance-not-monotone", repr(d.tolist()))
+        raise Violation(tag + "distance-not-monotone", repr(d.tolist()))
     if any(abs(d[i] - ref[i]) > tol for i in range(len(d))):
-        raise Violation("distance-values", "%r vs reference %r" % (d.tolist(), ref))
+        raise Violation(tag + "distance-values", "%r vs reference %r" % (d.tolist(), ref))
     nt = False
-    for kind, k, f, eps in r["q"]:
+    for kind, k, f, eps in queries:
         if kind == "zero":
             s = 0.0
         elif kind == "full":
@@ -112,9 +118,9 @@ def check_arclength(r, ctx):
         pc, pr, pl, idx = lan.interpolate_position(s)
         idx = int(idx)
         if not (0 <= idx < len(c) - 1):
-            raise Violation("segment-index-range", "s=%r -> idx %r with %d vertices" % (s, idx, len(c)))
+            raise Violation(tag + "segment-index-range", "s=%r -> idx %r with %d vertices" % (s, idx, len(c)))
         if not (d[idx] - tol <= s <= d[idx + 1] + tol):
-            raise Violation("segment-index", "s=%r not in [d[%d], d[%d]] = [%r, %r]" % (s, idx, idx + 1, d[idx],
+            raise Violation(tag + "segment-index", "s=%r not in [d[%d], d[%d]] = [%r, %r]" % (s, idx, idx + 1, d[idx],
                                                                                       d[idx + 1]))
         # own parametrisation: the centre point at arc length s
         j = 0
@@ -124,7 +130,7 @@ def check_arclength(r, ctx):
         t = (s - ref[j]) / seg
         exp_c = [c[j][0] + t * (c[j + 1][0] - c[j][0]), c[j][1] + t * (c[j + 1][1] - c[j][1])]
         if geom.dist(exp_c, pc) > tol:
-            raise Violation("centre-point", "s=%r: got %r expected %r" % (s, list(pc), exp_c))
+            raise Violation(tag + "centre-point", "s=%r: got %r expected %r" % (s, list(pc), exp_c))
         # right / left at the same parameter of the segment the library reports
         tt = (s - ref[idx]) / (ref[idx + 1] - ref[idx])
         for name, got, line in (("right", pr, ll["right"]), ("left", pl, ll["left"])):
@@ -133,12 +139,11 @@ def check_arclength(r, ctx):
             # the parameter is only determined up to tol/segment length
             slack = tol + abs(tol / (ref[idx + 1] - ref[idx])) * geom.dist(line[idx], line[idx + 1])
             if geom.dist(exp, got) > slack:
-                raise Violation("%s-point" % name, "s=%r idx=%d: got %r expected %r" % (s, idx, list(got), exp))
-        ctx.label("s-" + kind)
+                raise Violation(tag + "%s-point" % name, "s=%r idx=%d: got %r expected %r" % (s, idx, list(got), exp))
+        ctx.label(tag + "s-" + kind)
         if kind in ("zero", "full", "vertex", "near-vertex"):
             nt = True
-    if nt:
-        ctx.nontrivial()
+    return nt
 
 
 # ----------------------------------------------------------------------------------------------- merge
@@ -179,6 +184,11 @@ def check_merge(r, ctx):
         exp_len = geom.polyline_length(a["center"]) + geom.polyline_length(b["center"])
         if abs(float(merged.distance[-1]) - exp_len) > 1e-9 * (1 + exp_len):
             raise Violation("merge-length", "%r vs %r" % (float(merged.distance[-1]), exp_len))
+        # the merged lanelet is a lanelet: its arc-length geometry must be that of the concatenated centre line
+        mll = {name: a[name] + b[name][1:] for name in ("left", "right", "center")}
+        qs = [["vertex", k, 0.0, 0.0] for k in range(len(mll["center"]))] + [["interior", k, 0.37, 0.0]
+                                                                               for k in range(len(mll["center"]) - 1)]
+        validate_arclength(merged, mll, qs, ctx, tag="merged-")
     ctx.label(r["mode"])
     ctx.label("swapped-args" if r["swap"] else "pred-first")
     ctx.nontrivial()
